@@ -21,7 +21,7 @@ from sa.callgraph import callgraph
 from sa.cfg import CFG, describe_path
 from sa.checks.c19 import integer_csv_guard, loaded_table_checks_on_every_path, pattern
 from sa.checks.c26 import CODED, coded_classes
-from sa.core import AnalysisError, Finding, Program, Report, program, src, walk_no_nested
+from sa.core import AnalysisError, Finding, Program, Report, dotted, program, src, walk_no_nested
 
 TC = "vtlengine.DataTypes._time_checking"
 VAL = "vtlengine.duckdb_transpiler.io._validation"
@@ -173,5 +173,26 @@ def run(rep: Report, tier: str) -> None:
     compare("Time_Period/canonical", py_tp, sql_tp, "pandas(_vtl_period_re|_sdmx_period_re)", "duckdb(TIME_PERIOD_PATTERN)", vmod.rel,
             vmod.assigns["TIME_PERIOD_PATTERN"].lineno, within=[canon])
     rep.analysed = {"pandas_codes": sorted(py_codes), "duckdb_codes": sorted(sq_codes)}
+    # ---- R20.7: what counts as a missing value is the same for both validators ----
+    rep.rule("R20.7", "every pandas read_csv on the validate_dataset side is called with keep_default_na=False and an explicit na_values (only the empty field is missing, as for "
+                      "DuckDB's read_csv on the run() side): pandas' default markers would turn the texts NA, null, None, NaN, N/A into missing values and reject an identifier 'NA'")
+    n7 = 0
+    for f7 in P.iter_functions():
+        if not f7.module.name.startswith(("vtlengine.files", "vtlengine.API")):
+            continue
+        for c7 in walk_no_nested(f7.node):
+            if not (isinstance(c7, ast.Call) and (dotted(c7.func) or "").split(".")[-1] in ("read_csv", "read_table", "read_fwf")):
+                continue
+            kw7 = {k.arg: k.value for k in c7.keywords if k.arg}
+            n7 += 1
+            kdn = kw7.get("keep_default_na")
+            ok7 = isinstance(kdn, ast.Constant) and kdn.value is False and "na_values" in kw7
+            rep.instance("R20.7", f"read_csv/{f7.qualname}", nontrivial=True, sample={"function": f7.qualname, "keep_default_na": src(kdn) if kdn is not None else None, "na_values": "na_values" in kw7})
+            if not ok7:
+                rep.add(Finding("R20.7", f"R20.7/read_csv/{f7.qualname}", f7.module.rel, c7.lineno, f7.qualname,
+                                f"`{src(c7.func)}(...)` is called with keep_default_na={src(kdn) if kdn is not None else '<default True>'}"
+                                f"{'' if 'na_values' in kw7 else ' and no na_values'}: pandas then reads the texts NA, null, None, NaN, N/A as missing, so validate_dataset rejects a String "
+                                f"identifier 'NA' (null identifier) that run() - DuckDB read_csv, only the empty field is NULL - loads as text"))
+    rep.floor("R20.7 pandas CSV readers on the validation side", n7, 1)
     rep.assumptions = ["Python validates numeric ranges of dates/times after the regex (datetime.fromisoformat); shapes are therefore compared "
                        "modulo digit ranges for Date and Time", "date.fromisoformat accepts exactly YYYY-MM-DD for date-only text"]
